@@ -123,6 +123,7 @@ Definition prop_storemap (input obs : val) : val :=
 (* ==== kind "deferred" (C20) ===============================================================================
    input  = (target v1given opts roots ops pre) target: 0 path | 1 stream; roots: (cid ...) or tnil;
             pre: tnone | b<bytes> = the file at the output path before the writer is used (path target)
+            faults (optional 7th field): the fault script of the output target, as in kind "store"
             ops: (tonput id once) (thas key) (tput key data) (tclose)
    output = ((res log bytes exists directbytes) ...)  per step:
             res = result of the call; log = ((id len) ...) callback invocations made by the call;
@@ -132,7 +133,8 @@ Definition prop_storemap (input obs : val) : val :=
 Definition v_dcfg (input : val) : dcfg :=
   mkdcfg (if vN (vnth 0 input) =? 0 then TPath else TStream) (v_wopts (vnth 2 input)) (vbool (vnth 1 input))
          (is_nil_tag (vnth 3 input)) (vcids (vnth 3 input))
-         (match vnth 5 input with VB b => Some b | _ => None end).
+         (match vnth 5 input with VB b => Some b | _ => None end)
+         (v_faults (vnth 6 input)).
 
 Definition v_dop (op : val) : option dop :=
   if tag_is op "onput" then Some (DOnPut (vN (vnth 1 op)) (vbool (vnth 2 op)))
